@@ -27,7 +27,7 @@ def nonNeg16 (v : Nat) : P Nat := if v < 32768 then pure v else P.failP
 def addU64 (a b : Nat) : P Nat := if a + b ≤ U64MAX then pure (a + b) else P.failP
 
 /-- `MAX_DECOMPRESSED_BLOCK_SIZE` of the repaired `read_data_block` -/
-def maxBlock : Nat := 16777216
+def maxBlock : Nat := 1048576
 
 /-- `read_data_block(file, pos)`; the value is the length of the returned data -/
 def readDataBlock (infl : Bytes → Nat → Bool) (pos : Nat) : P Nat := do
